@@ -188,6 +188,74 @@ PROPS['C14'] = dict(
     assumptions=[], not_decided=['text outside the templates', 'digit strings -> numbers', 'read_custom_sample_banks field rules'],
 )
 
+_READER_TRUST = COMMON_TRUST + [
+    'ScriptedReader (harness-defined BufRead): hands out every chunk schedule within the stated content bound',
+    'std read_until / read_exact / Cursor are executed as compiled by Kani (their own retry-on-Interrupted and chunk independence are part of what the bounded harnesses explore)',
+    'reader harnesses run with --no-default-checks (assertions and unwinding assertions only): io::Error bit-packed representation makes CBMC pointer checks explode',
+]
+
+PROPS['C08'] = dict(
+    category='other',
+    technique='Kani contract on the real Decoder::new / read_bom over a harness-defined BufRead that hands out every chunk schedule (bounded content length); known finding D5 keyed by the first chunk length',
+    level_text='bounded stand-in: content of 0..4 bytes (every value), every chunk schedule whose first chunk is empty or >= 3 bytes, one Interrupted result: the detected encoding is from_bom(content) and exactly the BOM bytes are consumed. Line assembly (read_line) independence from chunking: bounded harnesses of C10 explore every schedule for <= 4 bytes',
+    level_note='known finding D5: a first chunk of 1 or 2 bytes is consumed and lost (reported on a KNOWN-FINDING line, witness harness c08_read_bom_short_first_chunk). from_path / File and longer streams are not decided',
+    verus=[], kani=['decoder.kc'],
+    only_prefix=['c08_'],
+    kani_functions=['src/reader/decoder.rs :: impl Decoder :: fn new', 'src/reader/decoder.rs :: impl Decoder :: fn read_bom'],
+    explanation='see level_text', trusted_base=_READER_TRUST, assumptions=[], not_decided=['from_path / BufReader<File>', 'streams longer than the bound'],
+)
+
+PROPS['C09'] = dict(
+    category='other',
+    technique='Kani contracts on the real Decoder::new and read_line over a fault-injecting BufRead (bounded content, fault at any of the first calls)',
+    level_text='bounded stand-in, reader side only: a non-transient error injected at any of the first fill_buf calls is returned by Decoder::new / read_line with its kind (never Ok, never a panic); Interrupted during BOM sniffing is retried',
+    level_note='writer faults are not decided (executing encode needs core::fmt); driver-level propagation (`?` in parse_version / parse_first_section / parse_section) is syntactic and only exercised in the thorough-tier driver harnesses',
+    verus=[], kani=['decoder.kc'],
+    only_prefix=['c09_'],
+    kani_functions=['src/reader/decoder.rs :: impl Decoder :: fn new', 'src/reader/decoder.rs :: impl Decoder :: fn read_bom', 'src/reader/decoder.rs :: impl Decoder :: fn read_line'],
+    explanation='see level_text', trusted_base=_READER_TRUST, assumptions=[], not_decided=['writer side (encode)', 'error kinds other than the injected representative'],
+)
+
+PROPS['C10'] = dict(
+    category='other',
+    technique='Kani contracts on the unit-level codecs (BOM table and code-unit pairing proved loop-free over all bytes) and on read_line line splitting per encoding (bounded); known finding D6 keyed by a foreign 0x0A byte',
+    level_text='proved (Kani, every byte value): BOM table (from_bom) and pairing of bytes into LE / BE code units with the odd tail dropped. Bounded stand-ins: read_line splits a UTF-8 stream at the first LF byte and a UTF-16LE stream after the first LF unit (<= 4 bytes, every schedule); UTF-16 / UTF-8 lossy decoding of single units (thorough tier: CBMC needs long runs for String building)',
+    level_note='known finding D6: in UTF-16 input any 0x0A byte that belongs to another code unit (e.g. U+4E0A) splits the line (KNOWN-FINDING line, witness harness c10_read_line_utf16_foreign_0a). Equality of whole decoded maps across the four encodings is not decided',
+    verus=[], kani=['encoding.kc', 'u16_iter.kc', 'decoder.kc'],
+    only_prefix=['enc_', 'u16_', 'c10_'],
+    kani_functions=['src/reader/encoding.rs :: impl Encoding :: fn from_bom', 'src/reader/encoding.rs :: impl Encoding :: fn decode', 'src/reader/u16_iter.rs :: DoubleByteIterator / U16LeIterator / U16BeIterator :: fn next',
+                    'src/reader/decoder.rs :: impl Decoder :: fn read_line'],
+    explanation='see level_text', trusted_base=_READER_TRUST + ['Encoding::decode replaced by a marker in the line-splitting harnesses (its own obligations are enc_*)'], assumptions=[],
+    not_decided=['whole-map equality across encodings', 'UTF-16BE line splitting (same code path as LE without the extra byte)'],
+)
+
+PROPS['C05'] = dict(
+    category='other',
+    technique='Kani contracts on the framing kernels (header recognition, skip rule, version line) over symbolic ASCII lines / listed templates; driver harnesses with a recording DecodeBeatmap impl (thorough tier)',
+    level_text='bounded stand-ins: Section::try_from_line accepts exactly `[Name]` for the 11 names over every ASCII line up to 15 bytes; should_skip_line is true exactly for empty lines and lines whose first non-blank text is `//` (every line up to 5 bytes over a 5-letter alphabet); version-line handling on 8 templates; line reading per C10. The driver (which line reaches which parser) is checked on listed files only in the thorough tier',
+    level_note='driver-level equivalence for arbitrary files is not decided in the quick tier; non-UTF-8 encodings are C10',
+    verus=[], kani=['support.kc', 'c05.kc'],
+    kani_functions=['src/section/mod.rs :: impl Section :: fn try_from_line', 'src/decode.rs :: trait DecodeBeatmap :: fn should_skip_line', 'src/format_version.rs :: fn try_version_from_line',
+                    'src/decode.rs :: trait DecodeBeatmap :: fn decode / fn parse_version / fn parse_first_section / fn parse_section (thorough tier)'],
+    explanation='see level_text', trusted_base=COMMON_TRUST + ['naive_memchr / naive_memrchr stand-ins for core::slice::memchr'], assumptions=[],
+    not_decided=['files beyond the listed ones', 'lines longer than the bounds'],
+)
+
+PROPS['C01'] = dict(
+    category='other',
+    technique='panic-freedom / unsafe-guard contracts on the mechanisms the property names: Kani loop-free full-domain harnesses where the function is loop-free, bounded harnesses otherwise',
+    level_text='proved (Kani, full domain): numeric limits (parse_with_limits for f64 / f32 / i32: accepted values lie within +-limit and are never NaN, no overflow panic), BOM table, code-unit pairing, the two unsafe NonZeroU32::new_unchecked guards (HitSampleInfo::new, SamplePoint::apply), SliderEventsIter::new. Bounded stand-ins: path-string conversion incl. the raw-pointer split buffer being empty on every exit, index safety of interpolate_vertices / idx_of_dist / calculate_length (path.len() <= lengths.len() invariant), line parsers on templates never panic for any numeric value',
+    level_note='the universally quantified claim over byte strings is whole-program totality and is NOT decided; nor are termination of the adaptive Bezier subdivision and of the tick loop, the 1000-point arc cap, the lossy UTF-8 loop (thorough tier only), re-encoding, the tracing feature set',
+    verus=[], kani=['support.kc', 'parse_number.kc', 'encoding.kc', 'u16_iter.kc', 'hit_samples.kc', 'c15_sample.kc', 'curve.kc', 'c20.kc', 'ho_lines.kc'],
+    only_prefix=['pn_', 'enc_from_bom', 'enc_decode', 'u16_', 'hs_hit_sample_info_new', 'c15_sample_point_apply', 'c16_calculate_length_2', 'c19_interpolate', 'c19_idx', 'c20_new_clears', 'ho_path_one', 'ho_line_5'],
+    kani_functions=['src/util/parse_number.rs :: impl ParseNumber for f64 / f32 / i32', 'src/reader/encoding.rs :: Encoding::from_bom', 'src/reader/u16_iter.rs :: iterators',
+                    'src/section/hit_objects/hit_samples.rs :: HitSampleInfo::new (unsafe)', 'src/section/timing_points/control_points/sample.rs :: SamplePoint::apply (unsafe)',
+                    'src/section/hit_objects/slider/curve.rs :: calculate_length / interpolate_vertices / idx_of_dist', 'src/section/hit_objects/slider/event.rs :: SliderEventsIter::new',
+                    'src/section/hit_objects/decode.rs :: convert_path_str / convert_points / point_split (unsafe)', 'src/section/hit_objects/decode.rs :: parse_hit_objects'],
+    explanation='see level_text', trusted_base=COMMON_TRUST + ['contracts/support.kc stand-ins for std FromStr'], assumptions=[],
+    not_decided=['whole-input totality', 'termination of float-driven loops', 'bezier buffer index safety', 're-encoding yields valid UTF-8'],
+)
+
 NOT_APPLICABLE = {
     'C02': 'whole-text round trip through core::fmt float printing and dec2flt: no contract on one function links encode output to decode input, and neither verifier executes fmt/parse on symbolic values; the expressible codec-pair lemmas are decided under C11/C13/C14/C04',
     'C03': 'same as C02 (edited values travel through write! and str::parse); the first-colon rule it singles out is a contract on KeyValue::parse decided under C11',
